@@ -5,6 +5,7 @@
 -/
 import IppModel.Lemmas.Encode
 import IppModel.Lemmas.Refine
+import IppModel.Lemmas.OpFirst
 namespace Ipp.Props.C01
 open Ipp Ipp.Gen Ipp.Spec
 
@@ -37,5 +38,16 @@ def demo : List Group :=
    ⟨.JobAttributes, []⟩, ⟨.OperationAttributes, [([0x7a], .other 0x2f [1, 2, 3])]⟩]
 
 example : wfMsg demo = true := by decide
+
+/-- Every message, whatever the position of its operation group: the bytes parse back to the message with its
+    first operation group moved to the front (an empty one when it has none) and nothing else changed. -/
+theorem roundtrip_any (h : Header) (gs L : List Group) (p : Bytes) (hwf : gs.all wfGroupC = true) (hL : ListingOf gs L) :
+    parseFlat (encodeMsg h L ++ p) = .ok ((h, opFirst gs), p) := by
+  rw [← encodeMsg_opFirst h L]
+  exact roundtrip h (opFirst gs) (opFirst L) p (wfMsg_opFirst gs hwf) (listing_opFirst gs L hL)
+
+/-- on the constructors' shape `opFirst` changes nothing, so `roundtrip` is the special case -/
+theorem opFirst_id_of_wf (gs : List Group) (hwf : wfMsg gs = true) : opFirst gs = gs :=
+  opFirst_of_wfMsg gs hwf
 
 end Ipp.Props.C01
